@@ -180,6 +180,7 @@ impl World {
             "peg" => self.op_peg(kv),
             "req" => self.op_req(kv, stats).await,
             "adm" => self.op_adm(kv, stats).await,
+            "sysadm" => self.op_sysadm(kv, stats).await,
             "key" => self.op_key(kv),
             "sig" => self.op_sig(kv),
             "alias" => self.op_alias(kv, stats).await,
@@ -499,6 +500,74 @@ impl World {
         } else {
             self.check_alive("adm", None).await;
         }
+        res
+    }
+
+    /// `sysadm c=<mut|filter> f=<system field> v=<value class>`: a parameter on a system field, in a mutation
+    /// (`field: $p`) or in a query filter (`field = $p`).
+    async fn op_sysadm(&mut self, kv: &HashMap<String, String>, stats: &mut Stats) -> String {
+        let (Some(c), Some(f), Some(v)) = (kv.get("c"), kv.get("f"), kv.get("v")) else { return "bad-op".into() };
+        const FIELDS: [&str; 9] = ["id", "room_id", "cdate", "mdate", "_entity", "_json", "_binary", "verifying_key", "_signature"];
+        if !FIELDS.contains(&f.as_str()) {
+            return "bad-op".into();
+        }
+        let value: ParamValue = match v.as_str() {
+            "bool" => ParamValue::Boolean(true),
+            "int" => ParamValue::Integer(7),
+            "float" => ParamValue::Float(1.5),
+            "nan" => ParamValue::Float(f64::NAN),
+            "str00" => ParamValue::String("hello".into()),
+            "str01" => ParamValue::String("[1]".into()),
+            "str10" => ParamValue::String("abcd".into()),
+            "str11" => ParamValue::String("1234".into()),
+            "bin0" => ParamValue::Binary("hello".into()),
+            "bin1" => ParamValue::Binary("abcd".into()),
+            "null" => ParamValue::Null,
+            _ => return "bad-op".into(),
+        };
+        let Some(l) = self.live().await else { return "no-instance".into() };
+        l.seq += 1;
+        let svc = l.svc.clone();
+        let mut p = Parameters::new();
+        p.params.insert("p".to_string(), value);
+        let before = PANICS.load(Ordering::SeqCst);
+        let (text, r) = match c.as_str() {
+            "mut" => {
+                let text = format!("mutate sys{} {{ Person {{ name: \"x\" {}: $p }} }}", l.seq, f);
+                let r = tokio::time::timeout(CALL_TIMEOUT, svc.mutate(&text, Some(p))).await.map(|r| r.map(|_| ()));
+                (text, r)
+            }
+            "filter" => {
+                let text = format!("query sys{} {{ Person ({} = $p) {{ name }} }}", l.seq, f);
+                let r = tokio::time::timeout(CALL_TIMEOUT, svc.query(&text, Some(p))).await.map(|r| r.map(|_| ()));
+                (text, r)
+            }
+            _ => return "bad-op".into(),
+        };
+        let panicked = PANICS.load(Ordering::SeqCst) != before;
+        let res = if panicked {
+            "panic".to_string()
+        } else {
+            match r {
+                Err(_) => "hang".to_string(),
+                Ok(Ok(())) => "defined".to_string(),
+                Ok(Err(DbError::Database(_))) => "sqlerr".to_string(),
+                Ok(Err(DbError::Parsing(q))) => match class_of(&q).as_str() {
+                    c @ ("NotNullable" | "ConflictingParameterType" | "InvalidBase64" | "InvalidQuery" | "MissingParameter"
+                    | "ConflictingVariableType") => format!("refused:{}", c),
+                    _ => "defined".to_string(),
+                },
+                Ok(Err(_)) => "defined".to_string(),
+            }
+        };
+        stats.inc(&format!("sysadm.{}", res.split(':').next().unwrap_or("")));
+        if panicked {
+            self.flag("admitted-parameter-panics", &format!("{} with value class {} panicked a service thread at {}", text, v, last_panic()));
+        }
+        if res == "sqlerr" {
+            self.flag("engine-rejects-valid-request", &format!("{} with value class {}", text, v));
+        }
+        self.check_alive("sysadm", if panicked { Some("admitted-parameter-panics") } else { None }).await;
         res
     }
 
